@@ -1151,6 +1151,106 @@ func c8Exhaustive(root *c8MsgInfo, yield func(c8ExhCase)) {
 	}
 }
 
+// c8SizeCases: LENGTH BOUNDARIES of the length-delimited encodings (round 2). Every *.pb.go has its own copy of
+// encodeVarint<X> / sov<X>; a payload whose strings / bytes / packed lists / repeated messages are ≥ 128 (2-byte length) and
+// ≥ 16384 (3-byte length) long exercises the copy of the field's own package and, through the enclosing lengths, the copies of
+// every ancestor package. Per package reachable from root: the first message (by name) that has a field of the class
+// (string, bytes, packed scalar list, repeated message), set through the minimal chain (c8Descend).
+func c8SizeCases(root *c8MsgInfo, thorough bool, yield func(key string, x any)) {
+	paths := c8Paths(root)
+	var msgs []*c8MsgInfo
+	for m := range paths {
+		msgs = append(msgs, m)
+	}
+	sort.Slice(msgs, func(i, j int) bool { return msgs[i].name < msgs[j].name })
+	type class struct {
+		name string
+		ok   func(f *c8Field) bool
+		lens []int
+	}
+	strLens, otherLens := []int{128, 16384}, []int{130}
+	if thorough {
+		strLens, otherLens = []int{127, 128, 16383, 16384, 70000}, []int{127, 128, 2100}
+	}
+	classes := []class{
+		{"string", func(f *c8Field) bool { return f.kind == c8String && f.card != c8Rep }, strLens},
+		{"bytes", func(f *c8Field) bool { return f.kind == c8Bytes && f.card != c8Rep }, otherLens},
+		{"packed", func(f *c8Field) bool { return f.card == c8Packed }, otherLens},
+		{"repmsg", func(f *c8Field) bool { return f.kind == c8Msg && f.card == c8Rep }, otherLens},
+	}
+	for _, cl := range classes {
+		donePkg := map[string]bool{}
+		for _, m := range msgs {
+			pkg := c8PkgDir(m.t)
+			if donePkg[pkg] {
+				continue
+			}
+			var s *c8Slot
+			var f *c8Field
+			for _, sl := range m.slots {
+				fields := []*c8Field{sl.f}
+				if sl.oneof {
+					fields = sl.alts
+				}
+				for _, cand := range fields {
+					if f == nil && !strings.HasPrefix(cand.goName, "Deprecated") && cl.ok(cand) {
+						s, f = sl, cand
+					}
+				}
+			}
+			if f == nil {
+				continue
+			}
+			donePkg[pkg] = true
+			for _, L := range cl.lens {
+				p := reflect.New(root.t)
+				v := c8Descend(p.Elem(), paths[m])
+				var fv reflect.Value
+				if s.oneof {
+					w := reflect.New(f.wrapper)
+					v.Field(s.idx).Set(w)
+					fv = w.Elem().Field(0)
+				} else {
+					fv = v.Field(f.idx)
+				}
+				switch cl.name {
+				case "string":
+					fv.SetString(strings.Repeat("x", L-1) + "y")
+				case "bytes":
+					b := make([]byte, L)
+					for i := range b {
+						b[i] = byte(i*7 + 1)
+					}
+					fv.SetBytes(b)
+				case "packed":
+					sl := reflect.MakeSlice(fv.Type(), L, L)
+					for i := 0; i < L; i++ {
+						e := sl.Index(i)
+						switch e.Kind() {
+						case reflect.Float64:
+							e.SetFloat(float64(i%7) + 0.5)
+						case reflect.Int32, reflect.Int64:
+							e.SetInt(int64(i%300) - 3)
+						default:
+							e.SetUint(uint64(i % 300))
+						}
+					}
+					fv.Set(sl)
+				case "repmsg":
+					sl := reflect.MakeSlice(fv.Type(), L, L)
+					if f.ptr {
+						for i := 0; i < L; i++ {
+							sl.Index(i).Set(reflect.New(f.msg.t))
+						}
+					}
+					fv.Set(sl)
+				}
+				yield(fmt.Sprintf("%s.%s.%s.%d", cl.name, pkg, m.goType+"."+f.goName, L), p.Interface())
+			}
+		}
+	}
+}
+
 // =============================================================================================
 // 3. JSON writer, J, float tables
 // =============================================================================================
@@ -1469,8 +1569,42 @@ var c8BadClasses = []string{
 	"strnum", "strobj", "boolstr", "dblstrjunk", "dblbool",
 }
 
+// integer SPELLINGS (block `intspell`): what the two branches of json.ReadInt64/ReadUint64/ReadInt32/ReadUint32 accept beyond the
+// canonical decimal text — strconv.ParseInt's `+` sign and leading zeros, `-0`, jsoniter's digit loop whose overflow test misses a
+// wrap-around to a larger value, and the texts both reject (underscore, space, hex prefix, exponent, empty, lone sign).
+// Class "is<x>" picks a SIGNED site (int64 / sfixed64 / int32), "iu<x>" an UNSIGNED one (uint64 / fixed64 / uint32 / fixed32).
+var c8IntSpellNames = []string{
+	"plus", "zeros", "neg0s", "neg0n", "numwrap", "numwrap2", "strwrap",
+	"under", "space", "hex", "exps", "expn", "empty", "minus", "numlead0s",
+}
+
+var c8IntSpellClasses = func() []string {
+	var cs []string
+	for _, n := range c8IntSpellNames {
+		cs = append(cs, "is"+n, "iu"+n)
+	}
+	return cs
+}()
+
+// TEXT LEAVES as the code reads them (block `txtleaf`): ids through (*ID).UnmarshalJSON / bytesid.go (hex either case, one pair of
+// literal quotes stripped, empty = zero id, len/2 must equal the id size, odd length / non-hex rejected by hex.Decode) and bytes
+// through base64.StdEncoding.DecodeString (padding required, \r and \n ignored anywhere, std alphabet only, trailing bits tolerated).
+var c8TxtLeafClasses = []string{
+	"txidmixed", "txidzeros", "txidquotedup", "txidodd1", "txidnl", "txidquoteone", "txidquotedempty", "txidlong2n", "txidspace",
+	"txb6nl", "txb6crlfend", "txb6nlpad", "txb6url", "txb6stdpm", "txb6trail", "txb6padmid", "txb6nopad2", "txb6pad3", "txb6extra",
+	"txb6space", "txb6onlynl", "txb6mime", "txb6urlown",
+}
+
 func c8BadApplies(class string, k c8Kind) bool {
 	switch {
+	case strings.HasPrefix(class, "txid"):
+		return k == c8ID
+	case strings.HasPrefix(class, "txb6"):
+		return k == c8Bytes
+	case strings.HasPrefix(class, "is"):
+		return k == c8I64 || k == c8Sfixed64 || k == c8I32
+	case strings.HasPrefix(class, "iu"):
+		return k == c8U64 || k == c8Fixed64 || k == c8U32 || k == c8Fixed32
 	case strings.HasPrefix(class, "id"):
 		return k == c8ID
 	case strings.HasPrefix(class, "b64"):
@@ -1507,7 +1641,134 @@ func (w *c8JW) badScalar(f *c8Field, v reflect.Value) (string, string, bool) {
 	s := func(t string) (string, string, bool) { a, b := w.str(t); return a, b, true }
 	n := func(t string) (string, string, bool) { a, b := c8Num(t); return a, b, true }
 	unsigned := f.kind == c8U64 || f.kind == c8Fixed64 || f.kind == c8U32 || f.kind == c8Fixed32
-	switch w.bad {
+	is32 := f.kind == c8U32 || f.kind == c8Fixed32 || f.kind == c8I32
+	class := w.bad
+	if strings.HasPrefix(class, "iu") {
+		class = "is" + class[2:]
+	}
+	if strings.HasPrefix(class, "txid") {
+		bs := make([]byte, v.Len())
+		zero := true
+		for i := range bs {
+			bs[i] = byte(v.Index(i).Uint())
+			zero = zero && bs[i] == 0
+		}
+		if zero {
+			for i := range bs {
+				bs[i] = byte(0xa1 + 7*i)
+			}
+		}
+		h := hex.EncodeToString(bs)
+		switch class {
+		case "txidmixed": // alternate upper / lower case digits
+			m := []byte(h)
+			for i := range m {
+				if i%2 == 0 {
+					m[i] = strings.ToUpper(string(m[i]))[0]
+				}
+			}
+			return s(string(m))
+		case "txidzeros": // the all-zero id written out in full
+			return s(strings.Repeat("0", len(h)))
+		case "txidquotedup":
+			return s("\"" + strings.ToUpper(h) + "\"")
+		case "txidodd1": // 2n+1 characters: passes `len(dst) != DecodedLen(len(src))`, fails in hex.Decode
+			return s(h + "a")
+		case "txidnl":
+			return s(h[:4] + "\n" + h[5:])
+		case "txidquoteone":
+			return s("\"" + h)
+		case "txidquotedempty":
+			return s("\"\"")
+		case "txidlong2n":
+			return s(h + h)
+		case "txidspace":
+			return s(" " + h[1:])
+		}
+	}
+	if strings.HasPrefix(class, "txb6") {
+		switch class {
+		case "txb6nl":
+			return s("QU\nJD")
+		case "txb6crlfend":
+			return s("QUJD\r\n")
+		case "txb6nlpad":
+			return s("QQ=\n=")
+		case "txb6url":
+			return s("-_-_")
+		case "txb6stdpm":
+			return s("+/+/")
+		case "txb6trail": // non-zero trailing bits
+			return s("QR==")
+		case "txb6padmid":
+			return s("QQ==QUJD")
+		case "txb6nopad2":
+			return s("QUI")
+		case "txb6pad3":
+			return s("Q===")
+		case "txb6extra":
+			return s("QUJD=")
+		case "txb6space":
+			return s("QU JD")
+		case "txb6onlynl":
+			return s("\n")
+		case "txb6mime", "txb6urlown": // the value's own encoding: folded MIME-style with CRLF every 4 characters / in the url-safe alphabet
+			raw := append([]byte{0xfb, 0xff, 0xbf}, v.Bytes()...)
+			if class == "txb6urlown" {
+				return s(base64.URLEncoding.EncodeToString(raw)) // holds '-' / '_': rejected
+			}
+			e := base64.StdEncoding.EncodeToString(raw)
+			var sb strings.Builder
+			for i := 0; i < len(e); i += 4 {
+				sb.WriteString(e[i:min(i+4, len(e))])
+				sb.WriteString("\r\n")
+			}
+			return s(sb.String())
+		}
+	}
+	switch class {
+	case "isplus":
+		return s("+7")
+	case "iszeros":
+		return s("007")
+	case "isneg0s":
+		return s("-0")
+	case "isneg0n":
+		return n("-0")
+	case "isnumwrap": // > MaxUint, yet value*10+d wraps to a LARGER value: jsoniter's `value2 < value` does not fire
+		if is32 {
+			return n("6442450944") // reads as 2147483648 (uint32) / overflow (int32)
+		}
+		return n("27670116110564327420") // reads as 9223372036854775804 for uint64 AND int64
+	case "isnumwrap2":
+		if is32 {
+			return n("6442450941") // reads as 2147483645: accepted by ReadInt32 too
+		}
+		return n("31359464925306237747") // wraps to a value ≥ 2^63: uint64 accepts, int64 says overflow
+	case "isstrwrap":
+		if is32 {
+			return s("6442450944")
+		}
+		return s("27670116110564327420")
+	case "isunder":
+		return s("1_0")
+	case "isspace":
+		return s(" 5")
+	case "ishex":
+		return s("0x10")
+	case "isexps":
+		return s("1e2")
+	case "isexpn":
+		return n("1e2")
+	case "isempty":
+		return s("")
+	case "isminus":
+		return s("-")
+	case "isnumlead0s": // a string may carry a sign AND leading zeros
+		if unsigned {
+			return s("000")
+		}
+		return s("-0012")
 	case "idlong2", "idlong4", "idlong32", "idshort2", "idodd", "idnonhex", "idupper", "idquoted":
 		bs := make([]byte, v.Len())
 		zero := true
